@@ -22,7 +22,9 @@ import (
 	"go/constant"
 	"go/token"
 	"go/types"
+	"math"
 	"math/big"
+	"regexp"
 	"sort"
 	"strings"
 
@@ -380,6 +382,8 @@ func init() {
 		checkReferenceVisitsEveryTriple(ctx, r)
 		checkCanonicalHasNoShortcut(ctx, r)
 		checkCavityEdges(ctx, r)
+		checkInsertionOrder(ctx, r)
+		checkReferenceKeepsOrder(ctx, r)
 		r.floor("Y4", 3)
 		r.floor("Y5", 2)
 	}}
@@ -1441,4 +1445,208 @@ func endpointBase(v ssa.Value, isEdge func(types.Type) bool) bool {
 		}
 	}
 	return false
+}
+
+// ---------------------------------------------------------------- Y13 / Y14: the vertex order
+
+// sortCallsOn: the calls of package sort in fn whose first argument derives from v.
+func sortCallsOn(fn *ssa.Function, v ssa.Value) []*ssa.Call {
+	var derives func(x ssa.Value, d int) bool
+	derives = func(x ssa.Value, d int) bool {
+		if x == v {
+			return true
+		}
+		if d > 6 {
+			return false
+		}
+		switch y := x.(type) {
+		case *ssa.MakeInterface:
+			return derives(y.X, d+1)
+		case *ssa.ChangeType:
+			return derives(y.X, d+1)
+		case *ssa.Convert:
+			return derives(y.X, d+1)
+		case *ssa.Slice:
+			return derives(y.X, d+1)
+		case *ssa.UnOp:
+			// a parameter captured by a function literal lives in a cell
+			if al, ok := y.X.(*ssa.Alloc); ok && y.Op == token.MUL {
+				for _, ref := range *al.Referrers() {
+					if st, ok := ref.(*ssa.Store); ok && st.Addr == ssa.Value(al) && derives(st.Val, d+1) {
+						return true
+					}
+				}
+			}
+		}
+		return false
+	}
+	var out []*ssa.Call
+	allInstrs(fn, func(_ *ssa.BasicBlock, ins ssa.Instruction) {
+		c, ok := ins.(*ssa.Call)
+		if !ok {
+			return
+		}
+		f := c.Common().StaticCallee()
+		if f == nil || f.Pkg == nil || (f.Pkg.Pkg.Path() != "sort" && f.Pkg.Pkg.Path() != "slices") || len(c.Common().Args) == 0 {
+			return
+		}
+		if derives(c.Common().Args[0], 0) {
+			out = append(out, c)
+		}
+	})
+	return out
+}
+
+// checkInsertionOrder (Y13): the `done` pruning of InCircumcircle (Y5) is valid only when the
+// vertices are inserted in non-decreasing x. Delaunay2d sorts its vertex slice, and the
+// comparator it sorts with puts a before b whenever a.x < b.x, however small the difference and
+// whatever the y values (a comparator that treats x values within a tolerance as equal and
+// falls back to y inserts a vertex before one with smaller x: triangles are closed too early).
+// Decided on the comparator's closed form, evaluated exactly at witness pairs.
+func checkInsertionOrder(ctx *Ctx, r *Report) {
+	fn := ctx.ssaFunc("render", "Delaunay2d")
+	if fn == nil || len(fn.Params) == 0 {
+		r.undecided("Y13", "Delaunay2d", 0, "not found")
+		return
+	}
+	calls := sortCallsOn(fn, fn.Params[0])
+	if len(calls) == 0 {
+		r.check("Y13", "Delaunay2d|vertices-sorted-by-x", fn.Pos(), false, "no sort of the vertex slice")
+		return
+	}
+	for k, c := range calls {
+		key := fmt.Sprintf("Delaunay2d|sort#%d-orders-by-x-strictly", k+1)
+		var less *ssa.Function
+		args := c.Common().Args
+		if len(args) >= 2 {
+			switch f := args[1].(type) {
+			case *ssa.MakeClosure:
+				less, _ = f.Fn.(*ssa.Function)
+			case *ssa.Function:
+				less = f
+			}
+		} else {
+			var t types.Type
+			x := args[0]
+			for x != nil && t == nil {
+				switch y := x.(type) {
+				case *ssa.MakeInterface:
+					t = y.X.Type()
+				default:
+					x = nil
+				}
+			}
+			if t != nil {
+				if sel := ctx.Prog.MethodSets.MethodSet(t).Lookup(nil, "Less"); sel != nil {
+					less = ctx.Prog.MethodValue(sel)
+				}
+			}
+		}
+		if less == nil || len(less.Blocks) == 0 {
+			r.undecided("Y13", key, c.Pos(), "comparator not found")
+			continue
+		}
+		ev := newEval(ctx)
+		res, _ := ev.evalRoot(less)
+		t, _ := res.(*Term)
+		if t == nil {
+			r.undecided("Y13", key, c.Pos(), "comparator has no closed form")
+			continue
+		}
+		np := len(less.Params)
+		if np < 2 {
+			r.undecided("Y13", key, c.Pos(), "comparator shape")
+			continue
+		}
+		pi, pj := paramName(less, np-2), paramName(less, np-1)
+		re := regexp.MustCompile(`^[\w.]+\[(\w+)\]\.(X|Y)$`)
+		atoms := atomList(t)
+		okAtoms := true
+		for _, a := range atoms {
+			m := re.FindStringSubmatch(a)
+			if m == nil || (m[1] != pi && m[1] != pj) {
+				okAtoms = false
+			}
+		}
+		if !okAtoms {
+			r.undecided("Y13", key, c.Pos(), "comparator reads more than the two vertices: "+strings.Join(atoms, ","))
+			continue
+		}
+		eval := func(xi, yi, xj, yj *big.Rat) (v int, ok bool) {
+			defer func() {
+				if recover() != nil {
+					ok = false
+				}
+			}()
+			env := map[string]*big.Rat{}
+			for _, a := range atoms {
+				m := re.FindStringSubmatch(a)
+				switch {
+				case m[1] == pi && m[2] == "X":
+					env[a] = xi
+				case m[1] == pi && m[2] == "Y":
+					env[a] = yi
+				case m[1] == pj && m[2] == "X":
+					env[a] = xj
+				default:
+					env[a] = yj
+				}
+			}
+			return evalT(t, env).Sign(), true
+		}
+		bad := ""
+		n := 0
+		for _, e := range []int{-1000, -60, -40, -31, -20, 0, 30} {
+			d := new(big.Rat).SetFrac(big.NewInt(1), new(big.Int).Lsh(big.NewInt(1), 1000))
+			if e > -1000 {
+				d = new(big.Rat).SetFloat64(math.Ldexp(1, e))
+			}
+			for _, base := range []int64{0, -7, 1 << 20} {
+				x0 := big.NewRat(base, 1)
+				x1 := new(big.Rat).Add(x0, d)
+				for _, ys := range [][2]int64{{0, 1}, {1, 0}, {0, 0}, {-5, 1 << 30}} {
+					y0, y1 := big.NewRat(ys[0], 1), big.NewRat(ys[1], 1)
+					n++
+					lt, ok1 := eval(x0, y0, x1, y1)
+					gt, ok2 := eval(x1, y1, x0, y0)
+					if !ok1 || !ok2 {
+						bad = " cannot be evaluated"
+					} else if (lt == 0 || gt != 0) && bad == "" {
+						bad = fmt.Sprintf(" for a=(%s,%s), b=(a.x+2^%d,%s): less(a,b)=%v less(b,a)=%v", x0.RatString(), y0.RatString(), e, y1.RatString(), lt != 0, gt != 0)
+					}
+				}
+			}
+		}
+		r.Counts["sort_witness_pairs"] += n
+		r.check("Y13", key, c.Pos(), bad == "", "the comparator puts a before b whenever a.x < b.x (exact evaluation of its closed form "+shortKey(t.Key(), 100)+");"+bad)
+	}
+}
+
+// checkReferenceKeepsOrder (Y14): the triangles are index triples into the caller's slice, and
+// the fast path has sorted that slice in place by x alone; the reference is compared with it as
+// a set of index triples. The reference therefore leaves the order of the slice alone: it calls
+// no sorting function on it and stores into none of its elements (a reference that re-sorts by
+// (x, y) numbers vertices with equal x differently and the two results stop being comparable).
+func checkReferenceKeepsOrder(ctx *Ctx, r *Report) {
+	fn := ctx.ssaFunc("render", "Delaunay2dSlow")
+	if fn == nil || len(fn.Params) == 0 {
+		r.undecided("Y14", "Delaunay2dSlow", 0, "not found")
+		return
+	}
+	bad := ""
+	if cs := sortCallsOn(fn, fn.Params[0]); len(cs) > 0 {
+		bad = " sorted at " + ctx.pos(cs[0].Pos())
+	}
+	allInstrs(fn, func(_ *ssa.BasicBlock, ins ssa.Instruction) {
+		if st, ok := ins.(*ssa.Store); ok {
+			a := st.Addr
+			if fa, ok := a.(*ssa.FieldAddr); ok {
+				a = fa.X
+			}
+			if ia, ok := a.(*ssa.IndexAddr); ok && ia.X == ssa.Value(fn.Params[0]) && bad == "" {
+				bad = " element stored at " + ctx.pos(st.Pos())
+			}
+		}
+	})
+	r.check("Y14", "Delaunay2dSlow|leaves-the-vertex-order-alone", fn.Pos(), bad == "", "no sort of, and no store into, the vertex slice;"+bad)
 }
